@@ -19,12 +19,12 @@ TRANSLATABLE = {
     "alldifferent", "lexicographic_leq", "max_eq", "max_leq", "min_eq", "min_geq", "affine_eq", "affine_leq",
     "affine_geq", "exactly_eq", "gcc", "relation", "dummy",
 }
-KINDS = ["permute_props", "duplicate", "always_true", "permute_vars", "unshare", "translate", "permute_domains"]
+KINDS = ["permute_props", "duplicate", "always_true", "permute_vars", "unshare", "translate", "permute_domains", "incremental"]
 
 
 def rewrite(ch: Choices, model: dict, kind: str):
     """Returns (new model, back) where back maps a solution of the new model to one of the original."""
-    m = copy.deepcopy({k: model[k] for k in ("shr", "idx", "off", "props")})
+    m = copy.deepcopy({k: model[k] for k in ("shr", "idx", "off", "props", "_incremental") if k in model})
     nv = len(m["idx"])
     ident = lambda s: tuple(s)
     if kind == "permute_props":
@@ -51,6 +51,12 @@ def rewrite(ch: Choices, model: dict, kind: str):
             v = vs[0]
             c = [[v, v], "max_leq", []]  # x <= x
         m["props"].insert(ch.choose(len(m["props"]) + 1, "where"), c)
+        return m, ident
+    if kind == "incremental":
+        n = len(m["shr"])
+        if list(m["idx"]) != list(range(n)) or any(m["off"]):
+            return None, None
+        m["_incremental"] = 1 + ch.choose(n, "k")
         return m, ident
     if kind == "permute_vars":
         perm = ch.shuffle(list(range(nv)), "perm")  # new position p holds old variable perm[p]
